@@ -9,7 +9,7 @@
      QCancel    the task in the outstanding read() is cancelled (receive timeout) — parked or already woken, in the same
                 loop iteration as a feed or not: `self._waiter = None; raise`
    The property: whatever the interleaving, returned ++ buffered = fed, in order (nothing lost, duplicated, reordered). *)
-From AV Require Import Lib.Base Model.Ws.
+From AV Require Import Lib.Base Generated.WsCodecGen Model.Ws.
 Open Scope N_scope.
 
 Inductive qev := QFeed (m : msg) | QRead | QReturn | QCancel.
@@ -47,4 +47,34 @@ Fixpoint qrun_trace (st : qstate) (evs : list qev) (i : N) : qstate * option N :
   match evs with
   | [] => (st, None)
   | e :: r => match qstep st e with Some st' => qrun_trace st' r (i + 1) | None => (st, Some i) end
+  end.
+
+(* ---- read flow control of the queue (sizes only) ---------------------------------------------------------------
+   FlFeed sz : feed_data of a message of `size` sz:  _size += sz; append; then `queue_pause_test` -> pause_reading()
+   FlPop     : _read_from_buffer: pop the head, _size -= its size, THEN `queue_resume_test` -> resume_reading()
+   (both tests regenerated from the source; `lim` is the queue's _limit = QUEUE_LIMIT_FACTOR * limit).
+   The property: whenever the queue is empty reading is not paused — a drained consumer can always get more. *)
+Inductive flev := FlFeed (sz : N) | FlPop.
+
+Record flstate := mkfl { fl_buf : list N; fl_size : N; fl_paused : bool }.
+Definition flinit : flstate := mkfl [] 0 false.
+
+Definition flstep (lim : N) (st : flstate) (e : flev) : option flstate :=
+  match e with
+  | FlFeed sz =>
+    let size' := fl_size st + sz in
+    Some (mkfl (fl_buf st ++ [sz]) size' (fl_paused st || queue_pause_test size' lim))
+  | FlPop =>
+    match fl_buf st with
+    | sz :: b =>
+      let size' := fl_size st - sz in
+      Some (mkfl b size' (if queue_resume_test size' lim then false else fl_paused st))
+    | [] => None
+    end
+  end.
+
+Fixpoint flrun (lim : N) (st : flstate) (evs : list flev) : option flstate :=
+  match evs with
+  | [] => Some st
+  | e :: r => match flstep lim st e with Some st' => flrun lim st' r | None => None end
   end.
